@@ -48,6 +48,7 @@ pub fn generator(prop: &str) -> Option<Gen> {
         "C19" => Some(gen::gen_c19),
         "C05" => Some(gen::gen_c05),
         "C06" => Some(gen::gen_c06),
+        "C02" => Some(gen::gen_c02),
         _ => None,
     }
 }
@@ -60,6 +61,7 @@ pub fn budget(prop: &str, tier: &str) -> u64 {
         "C19" => 300,
         "C05" => 300,
         "C06" => 300,
+        "C02" => 300,
         "C14" => 3 * 6 * 155 + 200,
         _ => 150,
     };
